@@ -93,8 +93,8 @@ func (r *mRepo) empty() bool {
 }
 
 type mUpload struct {
-	Repo  string
-	Buf   []byte
+	Repo string
+	Buf  []byte
 	// Check is the pending start-offset check of each BlobWriter value obtained for this session, by writer slot:
 	// absent or -2: no pending check; -1: resume asked "continue"; >=0: that writer's first write must be at this offset.
 	Check map[int]int64
@@ -109,8 +109,8 @@ type Model struct {
 	// (union view: which member's error surfaces is unspecified).
 	AnyFailCode bool
 	Immutable   bool
-	Repos     map[string]*mRepo
-	Uploads   []*mUpload
+	Repos       map[string]*mRepo
+	Uploads     []*mUpload
 }
 
 func NewModel(immutable bool) *Model {
